@@ -27,6 +27,8 @@ def load_corpus():
     if os.path.isdir(sd):
         for d in sorted(os.listdir(sd)):
             pf = os.path.join(sd, d, 'patch.diff')
+            if os.path.exists(os.path.join(sd, d, 'patch_rebased.diff')):
+                pf = os.path.join(sd, d, 'patch_rebased.diff')      # the same change, re-made next to a later fix: commit of /repo
             if os.path.exists(pf):
                 meta = json.load(open(os.path.join(sd, d, 'meta.json'))) if os.path.exists(os.path.join(sd, d, 'meta.json')) else {}
                 out['S_' + d] = ('@patch', open(pf).read(), '', meta.get('property', d[:3]))
@@ -53,14 +55,22 @@ def run_one(name, spec, props, tier, jobs):
     base = os.path.join(tempfile.gettempdir(), 'kvmut', name.replace('/', '_'))
     shutil.rmtree(base, ignore_errors=True)
     os.makedirs(base)
+    worktree = False
     try:
-        shutil.copytree('/repo/kingdon', base + '/kingdon')
         if path == '@patch':
-            # `old` is a unified diff (text), `new` is '' or '-R'
-            r = subprocess.run(['patch', '-p1', '-s', '-d', base] + ([new] if new else []), input=old, text=True, capture_output=True)
+            # `old` is a unified diff (text), `new` is '' or '-R'.  Applied in a scratch worktree of /repo HEAD with a
+            # three-way merge, so that a seed written before a later "fix:" commit still applies next to that fix.
+            os.rmdir(base)
+            r = subprocess.run(['git', '-C', '/repo', 'worktree', 'add', '--detach', base, 'HEAD'], capture_output=True, text=True)
             if r.returncode != 0:
+                os.makedirs(base, exist_ok=True)
+                return name, prop, {p: 'PATCH-FAIL worktree ' + r.stderr[-200:] for p in props}
+            worktree = True
+            r = subprocess.run(['git', '-C', base, 'apply', '--3way'] + ([new] if new else []), input=old, text=True, capture_output=True)
+            if r.returncode != 0 or subprocess.run(['git', '-C', base, 'diff', '--name-only', '--diff-filter=U'], capture_output=True, text=True).stdout.strip():
                 return name, prop, {p: 'PATCH-FAIL ' + (r.stdout + r.stderr)[-200:] for p in props}
         else:
+            shutil.copytree('/repo/kingdon', base + '/kingdon')
             s = open(f'{base}/{path}').read()
             if s.count(old) != 1:
                 return name, prop, {p: 'PATCH-FAIL' for p in props}
@@ -79,6 +89,8 @@ def run_one(name, spec, props, tier, jobs):
                 res[p] += ' :: ' + ' '.join(v[:1])[:300] + r.stderr[-300:]
         return name, prop, res
     finally:
+        if worktree:
+            subprocess.run(['git', '-C', '/repo', 'worktree', 'remove', '--force', base], capture_output=True)
         shutil.rmtree(base, ignore_errors=True)
 
 
